@@ -509,3 +509,35 @@ func H08Dash() {
 	vndAssert(get(projs[1], r0) == kval, "sub-name-value-keeps-its-dash")
 	vndAssert(get(projs[2], r0) == gmp, "gomaxprocs-needs-digits-after-the-dash")
 }
+
+// H08Rejected: an expression the parser rejects leaves no trace: after the rejection the
+// same parser's projections plus residue still lose nothing (two results that differ only
+// in a file key nobody named get different residue keys), in either order of rejection and
+// accepted expression.
+func H08Rejected() {
+	// (single-field expressions: what a rejected multi-field expression leaves behind of its
+	// accepted leading fields is not something the property speaks about)
+	bad := []string{".config@(x y)", "a@nosuchorder", ".unit"}[vndChoice("rejected", 3)]
+	var pp ProjectionParser
+	rejectFirst := vndBool("reject-first")
+	if rejectFirst {
+		_, err := pp.Parse(bad, nil)
+		vndAssert(err != nil, "expression-is-rejected")
+	}
+	p, err := pp.Parse(".fullname", nil)
+	if err != nil {
+		panic(err)
+	}
+	if !rejectFirst {
+		_, err := pp.Parse(bad, nil)
+		vndAssert(err != nil, "expression-is-rejected")
+	}
+	residue := pp.Residue()
+	va, vb := vndByte("a"), vndByte("b")
+	vndAssume(vndAnd(vndAnd(va >= 'x', va <= 'y'), vndAnd(vb >= 'x', vb <= 'y')))
+	r0 := h08BuildName(h08Name{nm: 'N', a: 'x', b: 'x'})
+	r1 := h08BuildName(h08Name{nm: 'N', a: va, b: vb})
+	vndReach("h08:rejected")
+	agree := p.Project(r0) == p.Project(r1) && residue.Project(r0) == residue.Project(r1)
+	vndAssert(agree == vndAnd(va == 'x', vb == 'x'), "projections-plus-residue-lose-nothing")
+}
